@@ -14,6 +14,8 @@ PROP = {
         "Multi.C17.view_load_exact",
         "Multi.C17.view_load_touches_only_view",
         "Multi.C17.view_roundtrip",
+        "Multi.C17.reachable_view_load_exact",
+        "Multi.C17.reachable_view_roundtrip",
         "Multi.elements_walk",
         "Multi.serialAddrs_canonical",
     ],
@@ -74,9 +76,9 @@ PROBES = [
     ("C17:compile:mutable-2d-view-save", "saving a mutable 2-D view", "std::cout << sv(a.transposed());", "10 13 11 14 12 15 "),
     ("C17:compile:const-2d-view-save", "saving a 2-D view of a const array", "std::cout << sv(std::as_const(a).transposed());", "10 13 11 14 12 15 "),
     ("C17:compile:mutable-1d-view-save", "saving a mutable 1-D view", "std::cout << sv(a[1]);", "13 14 15 "),
-    ("C17:compile:const-1d-view-save", "saving a 1-D view of a const array (`oa << std::as_const(A)[1]`) does not compile: const_subarray<T,1>::serialize binds a mutable reference to a const element",
+    ("C17:compile:const-1d-view-save", "saving a 1-D view of a const array (`oa << std::as_const(A)[1]`, the begin()/end() overload; did not compile before /repo ac1a032)",
      "std::cout << sv(std::as_const(a)[1]) << sv(std::as_const(a).transposed()[1]) << sv(std::as_const(a1)());", "13 14 15 11 14 4 4 4 "),
-    ("C17:compile:mutable-0d-view", "saving or loading a mutable zero-dimensional view (`oa << A0()`) does not compile: subarray<T,0>::serialize goes through elements(), which a 0-D view does not have",
+    ("C17:compile:mutable-0d-view", "saving and loading a mutable zero-dimensional view (`oa << A0()`; did not compile before /repo e9fd972)",
      "std::cout << sv(a0()); multi::array<int,0> b0(9); auto&& z = b0(); std::ostringstream os; { boost::archive::text_oarchive oa(os); oa << a0(); } std::istringstream is(os.str()); boost::archive::text_iarchive ia(is); ia >> z; std::cout << *b0.data_elements();", "5 5"),
     ("C17:compile:load-1d-view", "loading into a mutable 1-D view", "auto&& r = a[1]; std::ostringstream os; { boost::archive::text_oarchive oa(os); oa << a[0]; } std::istringstream is(os.str()); boost::archive::text_iarchive ia(is); ia >> r; std::cout << a[1][0] << a[1][2];", "1012"),
 ]
